@@ -59,6 +59,8 @@ class Dims:
         if k == 'UnaryOperator':
             if e.op in ('-', '+', '*', 'post++', 'post--', '++', '--', '&'):
                 return self.dim(e.child('sub'))
+            if e.op == '!':
+                self.dim(e.child('sub'))      # the negated comparison is a site like any other; the result is a truth value
             return None
         if k == 'ParenExpr':
             return self.dim(e.c[0])
